@@ -1696,6 +1696,8 @@ pub fn replay(ctx: &mut Ctx, case: &Value) {
             let ss = searchers(&built);
             if case["kind"] == "driver-multi" {
                 driver_case_multi(ctx, &spec, &built, &ss[0].1, &q, f32::from_bits(case["threshold_bits"].as_u64().unwrap_or(0) as u32));
+            } else if let Q::Inter(_) = &q {
+                driver_case_multi(ctx, &spec, &built, &ss[0].1, &q, f32::from_bits(case["initial_bits"].as_u64().unwrap_or(0) as u32));
             } else {
                 let pol = case["policy"].as_str().unwrap_or("");
                 let policy = if pol.starts_with("Staircase") { Policy::Staircase } else if let Some(k) = pol.strip_prefix("KthBest(").and_then(|x| x.strip_suffix(')')).and_then(|x| x.parse().ok()) { Policy::KthBest(k) } else if let Some(b) = pol.strip_prefix("Const(").and_then(|x| x.strip_suffix(')')).and_then(|x| x.parse().ok()) { Policy::Const(b) } else { Policy::Staircase };
